@@ -22,7 +22,8 @@ MANIFEST = dict(
          'recomputed representation equals the cached one, and that every construction route yields the same hash. Concrete '
          'digests are not computed (SHA-256 and bitarray are modelled).'
          " Ordinary cells above pruned sub-trees hash d1 with the union of the children's level masks; the same child in several reference slots contributes every slot; the cached hash stays the recomputed one after derived builders/slices are used."
-         ' Equality and hashing follow the representation hash where it differs from the level-0 hash (a cell vs. the pruned branch standing for it, an ordinary cell above either); cells built one after the other in one process - leaves whose padded data bytes coincide, two prunings of one tree - each get their own hash.',
+         ' Equality and hashing follow the representation hash where it differs from the level-0 hash (a cell vs. the pruned branch standing for it, an ordinary cell above either); cells built one after the other in one process - leaves whose padded data bytes coincide, two prunings of one tree - each get their own hash.'
+         ' Cells of a subclass of Cell compare and hash like plain cells with the same representation hash.',
     note='trusted: CPython ast, the checker\'s interpreter and its bitarray/hashlib models, transcription of tvm.pdf 3.1.4-3.1.6. '
          'Not decided: digests of concrete cells.',
     design_ref='DESIGN.md section 4 C01')
